@@ -7,6 +7,8 @@
 #include <memory>
 #include <exception>
 #include <unordered_map>
+#include <map>
+#include <vector>
 #include <set>
 #include <pthread.h>
 #include <sched.h>
@@ -583,6 +585,9 @@ unsigned __real_sleep(unsigned);
 int __real_usleep(useconds_t);
 int __real_nanosleep(const struct timespec *, struct timespec *);
 int __real_sched_setaffinity(pid_t, size_t, const cpu_set_t *);
+int __real_pthread_attr_init(pthread_attr_t *);
+int __real_pthread_attr_destroy(pthread_attr_t *);
+bool psv_attr_affinity_unusable(const pthread_attr_t *a);
 char *__real_getenv(const char *);
 clock_t __real_clock(void);
 
@@ -590,6 +595,7 @@ clock_t __real_clock(void);
 
 int __wrap_pthread_create(pthread_t *t, const pthread_attr_t *attr, void *(*fn)(void *), void *arg) {
 	if (!ON_FIBER) return __real_pthread_create(t, attr, fn, arg);
+	if (psv_attr_affinity_unusable(attr)) { if (S->ctx) { S->ctx->count("fault:pthread_create_einval_affinity"); S->ctx->log.ev("pthread_create: EINVAL (attributes bind to a CPU the machine does not have)"); } return EINVAL; }
 	sched_point(OP_CREATE);
 	Fiber &me = *S->fibers[(size_t)S->cur];
 	size_t ssz = 1u << 20;
@@ -769,10 +775,46 @@ int psv_env_threads = 0;        // what GOTO_NUM_THREADS / OMP_NUM_THREADS say (
 int psv_affinity_fails = 0;     // sched_setaffinity returns -1
 static long psv_clock_ticks = 0;
 
+int psv_ncpus = 0;              // CPUs of the simulated machine (0: any CPU number is usable)
+
+// a CPU set is usable on the simulated machine if it names at least one existing CPU
+static bool cpuset_usable(size_t n, const cpu_set_t *s) {
+	if (psv_ncpus <= 0 || !s) return true;
+	for (int c = 0; c < psv_ncpus && (size_t)c < n * 8; c++) if (CPU_ISSET_S(c, n, s)) return true;
+	return false;
+}
+// affinity stored in thread attributes (pthread_attr_setaffinity_np), by attribute object
+static std::map<const void *, std::vector<unsigned char>> g_attr_affinity;
+
 int __wrap_sched_setaffinity(pid_t p, size_t n, const cpu_set_t *s) {
 	if (!S) return __real_sched_setaffinity(p, n, s);
 	if (psv_affinity_fails) { if (S->ctx) S->ctx->count("fault:setaffinity_fail"); errno = EINVAL; return -1; }
+	if (!cpuset_usable(n, s)) { if (S->ctx) S->ctx->count("fault:setaffinity_no_such_cpu"); errno = EINVAL; return -1; }
 	return 0;
+}
+int __wrap_pthread_setaffinity_np(pthread_t, size_t n, const cpu_set_t *s) {
+	if (psv_affinity_fails || !cpuset_usable(n, s)) { if (S && S->ctx) S->ctx->count("fault:setaffinity_no_such_cpu"); return EINVAL; }
+	return 0;
+}
+int __wrap_pthread_attr_init(pthread_attr_t *a) {
+	g_attr_affinity.erase(a);
+	return __real_pthread_attr_init(a);
+}
+int __wrap_pthread_attr_destroy(pthread_attr_t *a) {
+	g_attr_affinity.erase(a);
+	return __real_pthread_attr_destroy(a);
+}
+int __wrap_pthread_attr_setaffinity_np(pthread_attr_t *a, size_t n, const cpu_set_t *s) {
+	if (!s || !n) { g_attr_affinity.erase(a); return 0; }
+	g_attr_affinity[a].assign((const unsigned char *)s, (const unsigned char *)s + n);
+	return 0;
+}
+// pthread_create with attributes whose CPU set names no existing CPU creates no thread (EINVAL, as glibc does)
+bool psv_attr_affinity_unusable(const pthread_attr_t *a) {
+	if (!a) return false;
+	auto it = g_attr_affinity.find(a);
+	if (it == g_attr_affinity.end()) return false;
+	return !cpuset_usable(it->second.size(), (const cpu_set_t *)it->second.data());
 }
 char *__wrap_getenv(const char *name) {
 	if (psv_env_threads > 0 && name && (!strcmp(name, "GOTO_NUM_THREADS") || !strcmp(name, "OMP_NUM_THREADS"))) {
